@@ -59,9 +59,10 @@ class SimDeadline(BaseException):
 
 class Clock:
     __slots__ = ("ticks", "deadline", "budget", "last_progress", "n", "expired", "max_ratio",
-                 "lex_deadline", "lex_ticks", "wall", "site", "progress_events")
+                 "lex_deadline", "lex_ticks", "wall", "site", "progress_events", "mult")
 
     def reset(self):
+        self.mult = getattr(self, "mult", 1)
         self.ticks = 0
         self.budget = 1 << 60
         self.deadline = 1 << 60
@@ -76,7 +77,7 @@ class Clock:
 
     def arm(self, n):
         self.n = n
-        self.budget = 1000 * (n + 50)
+        self.budget = 1000 * (n + 50) * self.mult
         self.last_progress = self.ticks
         self.deadline = self.ticks + self.budget
 
@@ -362,7 +363,7 @@ def _install_wrappers(ns):
     def raw_peek(self, *, offset=0, collect=1):
         clock.lex_ticks += 1
         if clock.lex_deadline is None:
-            clock.lex_deadline = clock.lex_ticks + 400 * (len(self.file.source) + 10)
+            clock.lex_deadline = clock.lex_ticks + 400 * (len(self.file.source) + 10) * clock.mult
         if clock.lex_ticks > clock.lex_deadline or clock.expired:
             clock.expire("lexticks")
         return orig_raw_peek(self, offset=offset, collect=collect)
@@ -483,6 +484,9 @@ class Executor:
     # ---- run ---------------------------------------------------------------------------
     def run(self):
         sc = self.sc
+        CLOCK.mult = int(sc.get("tick_mult") or 1)      # confirmation runs of a suspected hang get a much larger no-progress budget
+        if sc.get("tick_mult"):
+            self.wall_cap = max(self.wall_cap, 150.0)
         b = sc.get("boot") or {}
         if b.get("listing") is not None or b.get("hide_pycache") or N is None or b.get("reboot"):
             boot(b.get("listing"), b.get("hide_pycache", False))
